@@ -169,7 +169,9 @@ pub fn run<D: Dec>(prop: &str, rep: &mut Report) {
         while h < n_hist {
             let mut rng = Rng::fork(seed, (h as u64) << 8 | set as u64);
             let which = h % 4;
-            let bytes = typist.generate(which, &mut rng, hist_len);
+            // the first sixteen histories are long ones: anything that only shows after many bytes (a counter, a slow leak)
+            let this_len = if h < 16 { hist_len * 600 } else { hist_len };
+            let bytes = typist.generate(which, &mut rng, this_len);
             lockstep::<D>(&prop_s, set, &r, &bytes, which, &mut out);
             h += threads;
         }
@@ -332,6 +334,7 @@ fn lockstep<D: Dec>(prop: &str, set: u8, r: &ScanRef, bytes: &[u8], which: usize
         let mut kb: Keyboard<DynLayout, D> = Keyboard::new(D::fresh(), dyn_layout(0, 0), HandleControl::Ignore);
         let mut ctx = Ctx2::default();
         let mut local: Vec<(usize, Ctx2, Want, String, &'static str)> = Vec::new();
+        let mut distinct_bad: BTreeSet<(usize, u8)> = BTreeSet::new();
         let mut evs = Vec::new();
         let mut errors = 0u64;
         for (i, b) in bytes.iter().enumerate() {
@@ -347,10 +350,12 @@ fn lockstep<D: Dec>(prop: &str, set: u8, r: &ScanRef, bytes: &[u8], which: usize
             }
             let bad1 = !want.accepts(&g1);
             let bad2 = !want.accepts(&g2);
-            if bad1 {
+            // only the first occurrence of a kind of mismatch is recorded in detail (a long history may repeat it thousands of times)
+            let fresh_kind = !distinct_bad.contains(&(c0.index(), *b));
+            if bad1 && fresh_kind {
                 local.push((i, c0, want.clone(), res_str(&g1), "advance_state"));
             }
-            if bad2 && (!bad1 || g1 != g2) {
+            if bad2 && (!bad1 || g1 != g2) && fresh_kind {
                 local.push((i, c0, want, res_str(&g2), "Keyboard::add_byte"));
             }
             if bad1 || bad2 {
@@ -358,7 +363,9 @@ fn lockstep<D: Dec>(prop: &str, set: u8, r: &ScanRef, bytes: &[u8], which: usize
                 d = D::fresh();
                 kb = Keyboard::new(D::fresh(), dyn_layout(0, 0), HandleControl::Ignore);
                 ctx = Ctx2::default();
-                if local.len() > 64 {
+                // keep going through a long history unless it keeps producing *new* kinds of mismatch
+                distinct_bad.insert((c0.index(), *b));
+                if distinct_bad.len() > 64 || local.len() > 20_000 {
                     break;
                 }
             }
@@ -398,7 +405,7 @@ fn lockstep<D: Dec>(prop: &str, set: u8, r: &ScanRef, bytes: &[u8], which: usize
                         via,
                         g
                     ),
-                    replay_bytes(set, &bytes[..=i], &want, &g, via),
+                    replay_bytes(set, &bytes[i.saturating_sub(4095)..=i], &want, &g, via),
                 ));
             }
         }
